@@ -173,17 +173,25 @@ func Check(c *core.Ctx) int {
 		pr, mres, err := CheckPersistFaults(c, outs[0].Gen.Consts)
 		if err != nil {
 			fmt.Println("INCONCLUSIVE:", err)
+			if violations > 0 {
+				// violations observed on the real code stand whatever happened to the later stage
+				return core.ExitViolation
+			}
 			return core.ExitInconclusive
 		}
-		c.Logf("persist faults: %d saves with a write failure point, %d interrupted-save states, %d violations, %d drift; PersistFile model %d states",
-			pr.Saves, pr.Crashes, len(pr.Violations), pr.Drift, mres.Distinct)
-		extra["persist_file"] = map[string]any{"saves_with_fault_point": pr.Saves, "interrupted_save_states": pr.Crashes,
+		c.Logf("persist faults: %d saves with a write failure point, %d interrupted-save states, %d commits with sparse saves, %d violations, %d drift; PersistFile model %d states",
+			pr.Saves, pr.Crashes, pr.Commits, len(pr.Violations), pr.Drift, mres.Distinct)
+		extra["persist_file"] = map[string]any{"saves_with_fault_point": pr.Saves, "interrupted_save_states": pr.Crashes, "commits_with_sparse_saves": pr.Commits,
 			"model_distinct_states": mres.Distinct, "sample": pr.Sample, "drift": pr.Drift}
 		for i, l := range pr.Violations {
 			violations++
 			if i < 3 {
 				path := c.WriteReplay(fmt.Sprintf("persist-%d", i), l)
-				c.Violation(path, fmt.Sprintf("C13_FileIntact: save with write limit %d (encoding %d bytes) returned err=%v %q; loading the state file afterwards gives %q", l.Limit, l.Size, l.Err, l.Msg, l.Loaded))
+				if l.K == "commit" {
+					c.Violation(path, fmt.Sprintf("C13_BlocksKept: Commit of block %d answered RetainHeight %d while the state file on disk is at height %d: the blocks a restarted node must replay may be pruned", l.H, l.Retain, l.Saved))
+				} else {
+					c.Violation(path, fmt.Sprintf("C13_FileIntact: save with write limit %d (encoding %d bytes) returned err=%v %q; loading the state file afterwards gives %q", l.Limit, l.Size, l.Err, l.Msg, l.Loaded))
+				}
 			}
 		}
 	}
